@@ -405,8 +405,10 @@ def finish(prop, level, reports, tier, t0, rule, assumptions=(), extra=None, exh
         "assumptions": list(assumptions), "wall_s": round(time.time() - t0, 2),
         "violations": len(unknown),
     }
-    os.makedirs(os.path.join(core.VERIF_DIR, "evidence"), exist_ok=True)
-    with open(os.path.join(core.VERIF_DIR, "evidence", prop + ".json"), "w", encoding="utf8") as f:
+    # evidence/ is only written for runs against /repo itself; runs against a scratch copy (VERIF_REPO) go elsewhere
+    evdir = os.path.join(core.VERIF_DIR, "evidence" if core.REPO == "/repo" else "evidence-scratch")
+    os.makedirs(evdir, exist_ok=True)
+    with open(os.path.join(evdir, prop + ".json"), "w", encoding="utf8") as f:
         json.dump(ev, f, ensure_ascii=False, indent=1, default=str)
     for r in reports:
         print(f"[{prop}] space {r.space.name}: cases={r.n_eval} nontrivial={r.n_nontriv} outcomes={len(r.obs)} "
